@@ -5,10 +5,12 @@ package dkg
 import (
 	"context"
 
+	eth2p0 "github.com/attestantio/go-eth2-client/spec/phase0"
 	"github.com/libp2p/go-libp2p/core/host"
 	"github.com/libp2p/go-libp2p/core/peer"
 
 	"github.com/obolnetwork/charon/cluster"
+	"github.com/obolnetwork/charon/core"
 	"github.com/obolnetwork/charon/dkg/bcast"
 	"github.com/obolnetwork/charon/dkg/share"
 )
@@ -31,4 +33,25 @@ func VerifRunFrost(ctx context.Context, tp any, numValidators, numNodes, thresho
 func VerifWrapBroadcast(tp any, wrap func(bcast.BroadcastFunc) bcast.BroadcastFunc) {
 	f := tp.(*frostP2P)
 	f.bcastFunc = wrap(f.bcastFunc)
+}
+
+// The ceremony's completion stage (dkg.Run after key generation): every node signs the deposit messages and the lock
+// hash with its new shares; every node checks the others' partial signatures against the public shares it holds and
+// aggregates. These are the repository's own functions, exported for the harness.
+
+func VerifSignDepositMsgs(shares []share.Share, shareIdx int, withdrawalAddresses []string, network string, amount eth2p0.Gwei) (core.ParSignedDataSet, map[core.PubKey]eth2p0.DepositMessage, error) {
+	return signDepositMsgs(shares, shareIdx, withdrawalAddresses, network, amount, false)
+}
+
+func VerifAggDepositData(data map[core.PubKey][]core.ParSignedData, shares []share.Share, msgs map[core.PubKey]eth2p0.DepositMessage, network string) ([]eth2p0.DepositData, error) {
+	return aggDepositData(data, shares, msgs, network)
+}
+
+func VerifSignLockHash(shareIdx int, shares []share.Share, hash []byte) (core.ParSignedDataSet, error) {
+	return signLockHash(shareIdx, shares, hash)
+}
+
+func VerifAggLockHashSig(data map[core.PubKey][]core.ParSignedData, shares map[core.PubKey]share.Share, hash []byte) error {
+	_, _, err := aggLockHashSig(data, shares, hash)
+	return err
 }
